@@ -142,10 +142,10 @@ func (gw *inclusiveGateway) run(ctx context.Context, sender tracing.ISenderHandl
 							},
 						})
 					} else {
-						distributeFlows(gw.sync, []*SequenceFlow{gw.defaultSequenceFlow})
+						continueFromOne(gw.sync, []*SequenceFlow{gw.defaultSequenceFlow})
 					}
 				default:
-					distributeFlows(gw.sync, sfs)
+					continueFromOne(gw.sync, sfs)
 				}
 				gw.synchronized = false
 				gw.activated = nil
@@ -181,6 +181,25 @@ func (gw *inclusiveGateway) run(ctx context.Context, sender tracing.ISenderHandl
 		case <-ctx.Done():
 			gw.tracer.Send(CancellationFlowNodeTrace{Node: gw.element})
 			return
+		}
+	}
+}
+
+// continueFromOne lets the first of the waiting flows continue over all the given sequence flows
+// and completes the others. The tokens that leave the gateway in one activation have to be
+// announced by one flow trace: handed out over several flows (as the parallel gateway does) they
+// are announced one by one, and an inclusive join downstream can meet the first of them before
+// it has heard of its siblings.
+func continueFromOne(awaitingActions []chan IAction, sequenceFlows []*SequenceFlow) {
+	indices := make([]int, len(sequenceFlows))
+	for i := range indices {
+		indices[i] = i
+	}
+	for i, action := range awaitingActions {
+		if i == 0 {
+			action <- flowAction{sequenceFlows: sequenceFlows, unconditionalFlows: indices}
+		} else {
+			action <- completeAction{}
 		}
 	}
 }
